@@ -295,6 +295,121 @@ class RangeTextTr(TextTr):
         return super().block(stmts, env, fall)
 
 
+class AdvTr(RangeTextTr):
+    """The advisory converters (`build_constraint_from_github_advisory_string`, `build_range_from_github_advisory_constraint`,
+    `build_range_from_snyk_advisory_string`): the scheme is looked up in the regenerated registry, the two comparator
+    dicts are the regenerated tables, a `str`-or-list argument is the list (a single string is the one-element list)."""
+    hdr = "(mkVer : MkVer)"
+    hargs = "mkVer"
+    mkarg = '(mkVer "")'
+    DICTS = {"vers_by_github_native_comparators": "Advisory.githubDict", "vers_by_snyk_native_comparators": "Advisory.snykDict"}
+
+    def expr(self, node, env):
+        fn = self.fn
+        if isinstance(node, ast.Subscript) and isinstance(node.value, ast.Name) and node.value.id == "RANGE_CLASS_BY_SCHEMES":
+            t, ty, p = self.expr(node.slice, env)
+            if ty == "Str" and p:
+                return "(registryIndex %s)" % t, "Cls", False
+        if isinstance(node, ast.Name) and node.id in self.DICTS and node.id not in env:
+            return self.DICTS[node.id], "Dict", True
+        if isinstance(node, ast.List) and not node.elts:
+            return "([] : List TCon)", "TConList", True
+        if isinstance(node, ast.IfExp):
+            c, cty, cp = self.truth(node.test, env)
+            a, at, ap = self.expr(node.body, env)
+            b, bt, bp = self.expr(node.orelse, env)
+            if cp and ap and bp and at == bt == "Str":
+                return "(if %s then %s else %s)" % (c, a, b), "Str", True
+        if isinstance(node, ast.Compare) and len(node.ops) == 1 and isinstance(node.ops[0], (ast.In, ast.NotIn)) \
+                and isinstance(node.left, ast.Constant) and isinstance(node.left.value, str) and len(node.left.value) == 1:
+            t, ty, p = self.expr(node.comparators[0], env)
+            if ty == "Str" and p:
+                r = "(%s.contains '%s')" % (t, node.left.value)
+                return (r if isinstance(node.ops[0], ast.In) else "(!%s)" % r), "Bool", True
+        if isinstance(node, ast.Call):
+            f = node.func
+            kw = {k.arg: k.value for k in node.keywords}
+            if isinstance(f, ast.Name) and f.id == "any" and len(node.args) == 1 and isinstance(node.args[0], ast.GeneratorExp):
+                # any(c in x for c in "…")
+                g = node.args[0]
+                if len(g.generators) == 1 and not g.generators[0].ifs and isinstance(g.generators[0].iter, ast.Constant) \
+                        and isinstance(g.generators[0].iter.value, str) and isinstance(g.generators[0].target, ast.Name) \
+                        and isinstance(g.elt, ast.Compare) and len(g.elt.ops) == 1 and isinstance(g.elt.ops[0], ast.In) \
+                        and isinstance(g.elt.left, ast.Name) and g.elt.left.id == g.generators[0].target.id:
+                    t, ty, p = self.expr(g.elt.comparators[0], env)
+                    if ty == "Str" and p:
+                        return "(anyCharIn %s %s)" % (lit(g.generators[0].iter.value), t), "Bool", True
+            if isinstance(f, ast.Name) and f.id == "split_req" and not node.args and {"string", "comparators"} <= set(kw) \
+                    and set(kw) <= {"string", "comparators", "default", "strip"}:
+                st, sty, sp = self.expr(kw["string"], env)
+                dt, dty, dp = self.expr(kw["comparators"], env)
+                df, dfty, dfp = self.expr(kw["default"], env) if "default" in kw else ("none", "None", True)
+                sr, srty, srp = self.expr(kw["strip"], env) if "strip" in kw else (lit(""), "Str", True)
+                if dfty == "Str":
+                    df, dfty = "(some %s)" % df, "StrOpt"
+                if sty == "Str" and dty == "Dict" and dfty in ("None", "StrOpt") and srty == "Str" and sp and dp and dfp and srp:
+                    return "(py_split_req %s %s %s %s %s)" % (self.mkarg, st, dt, df, sr), "OptPair", False
+            if isinstance(f, ast.Name) and f.id == "split_req_bracket_notation" and not node.args and set(kw) == {"string"}:
+                st, sty, sp = self.expr(kw["string"], env)
+                if sty == "Str" and sp:
+                    return "(py_split_req_bracket %s %s)" % (self.mkarg, st), "OptPair", False
+            if isinstance(f, ast.Attribute) and f.attr == "version_class" and isinstance(f.value, ast.Name) \
+                    and env.get(f.value.id) == "Cls" and len(node.args) == 1 and not kw:
+                t, ty, p = self.expr(node.args[0], env)
+                if ty == "Str" and p:
+                    v = fn.tmp()
+                    return "((versionClassOfE %s) >>= fun %s => mkVer %s %s)" % (f.value.id, v, v, t), "Str", False
+            if isinstance(f, ast.Name) and f.id == "VersionConstraint" and not node.args and set(kw) == {"comparator", "version"}:
+                ct, cty, cp = self.expr(kw["comparator"], env)
+                vt, vty, vp = self.expr(kw["version"], env)
+                if cty == "Str":
+                    ct, cty = "(some %s)" % ct, "StrOpt"
+                if cty == "StrOpt" and vty == "Str" and cp and vp:
+                    return "(mkTConOpt %s %s)" % (ct, vt), "TCon", False
+            if isinstance(f, ast.Name) and f.id == "build_constraint_from_github_advisory_string" and len(node.args) == 2 and not kw:
+                a, at, ap = self.expr(node.args[0], env)
+                b, bt, bp = self.expr(node.args[1], env)
+                if at == bt == "Str" and ap and bp:
+                    return "(py_github_constraint mkVer %s %s)" % (a, b), "TCon", False
+            if isinstance(f, ast.Name) and env.get(f.id) == "Cls" and not node.args and set(kw) == {"constraints"}:
+                t, ty, p = self.expr(kw["constraints"], env)
+                if ty == "TConList" and p:
+                    return "(%s, %s)" % (f.id, t), "TRange", True
+            if isinstance(f, ast.Attribute) and f.attr == "replace" and len(node.args) == 2 and not kw \
+                    and all(isinstance(a, ast.Constant) and isinstance(a.value, str) for a in node.args) \
+                    and len(node.args[0].value) == 1 and node.args[1].value == "":
+                t, ty, p = self.expr(f.value, env)
+                if ty == "Str" and p:
+                    return "(removeChar '%s' %s)" % (node.args[0].value, t), "Str", True
+        return super().expr(node, env)
+
+    def block(self, stmts, env, fall):
+        if stmts:
+            s0, rest = stmts[0], stmts[1:]
+            # `if isinstance(x, str): x = [x]`: decided by the type the argument is translated at
+            if isinstance(s0, ast.If) and isinstance(s0.test, ast.Call) and isinstance(s0.test.func, ast.Name) \
+                    and s0.test.func.id == "isinstance" and len(s0.test.args) == 2 and isinstance(s0.test.args[0], ast.Name) \
+                    and isinstance(s0.test.args[1], ast.Name) and s0.test.args[1].id == "str" and s0.test.args[0].id in env:
+                taken = s0.body if env[s0.test.args[0].id] == "Str" else (s0.orelse or [])
+                return self.block(list(taken) + rest, env, fall)
+            # xs = []: a list of constraints held as text
+            if isinstance(s0, ast.Assign) and len(s0.targets) == 1 and isinstance(s0.targets[0], ast.Name) \
+                    and isinstance(s0.value, ast.List) and not s0.value.elts:
+                env2 = dict(env)
+                env2[s0.targets[0].id] = "TConList"
+                return "let %s : List TCon := ([] : List TCon)\n" % s0.targets[0].id + self.block(rest, env2, fall)
+            # xs.append(<effectful constraint>)
+            if isinstance(s0, ast.Expr) and isinstance(s0.value, ast.Call) and isinstance(s0.value.func, ast.Attribute) \
+                    and s0.value.func.attr == "append" and isinstance(s0.value.func.value, ast.Name) \
+                    and env.get(s0.value.func.value.id) == "TConList" and len(s0.value.args) == 1:
+                n = s0.value.func.value.id
+                t, ty, p = self.expr(s0.value.args[0], env)
+                if ty == "TCon" and not p:
+                    v = self.fn.tmp()
+                    return "%s >>= fun %s =>\nlet %s : List TCon := (%s ++ [%s])\n" % (t, v, n, n, v) + self.block(rest, env, fall)
+        return super().block(stmts, env, fall)
+
+
 def _ascii_idiom(node):
     """`len(x) + 2 == len(ascii(x))` -> the node x, else None"""
     try:
@@ -331,7 +446,14 @@ JOBS = [
      [("string", "Str")], "OptPair", ["PyTextRemoveSpaces"]),
     ("version_range.py", "from_string", "VersionRange", "PyTextRangeFromString", "vr_from_string",
      [("vers", "Str"), ("simplify", "Bool"), ("validate", "Bool")], "TRange", ["PyTextConFromString"]),
+    ("version_range.py", "build_constraint_from_github_advisory_string", None, "PyTextGithubCon", "py_github_constraint",
+     [("scheme", "Str"), ("string", "Str")], "TCon", ["PyTextSplitReq", "Text.Advisory"]),
+    ("version_range.py", "build_range_from_github_advisory_constraint", None, "PyTextGithubRange", "py_github_range",
+     [("scheme", "Str"), ("string", "StrList")], "TRange", ["PyTextGithubCon"]),
+    ("version_range.py", "build_range_from_snyk_advisory_string", None, "PyTextSnykRange", "py_snyk_range",
+     [("scheme", "Str"), ("string", "StrList")], "TRange", ["PyTextSplitReq", "PyTextSplitReqBracket", "Text.Advisory"]),
 ]
+ADVISORY = {"py_github_constraint", "py_github_range", "py_snyk_range"}
 
 
 def generate(src_dir):
@@ -340,14 +462,14 @@ def generate(src_dir):
     trees = {}
     for src, pyname, cls, fname, lean, params, ret, imports in JOBS:
         key = (cls + "." if cls else "") + pyname
-        out = [HEADER % (src, "".join("import Univers.Gen.%s\n" % i for i in imports))]
+        out = [HEADER % (src, "".join(("import Univers.%s\n" if i.startswith("Text.") else "import Univers.Gen.%s\n") % i for i in imports))]
         try:
             if src not in trees:
                 trees[src] = ast.parse(open(os.path.join(src_dir, src)).read())
             fdef = L._find(trees[src], pyname, cls)
             # parameters the typed model does not have (`cls`, `version_class`) are not Lean parameters
             text = L.translate_function(fdef, lean, params, ret, {}, {}, src,
-                                        tr_class=RangeTextTr if lean == "vr_from_string" else TextTr)
+                                        tr_class=RangeTextTr if lean == "vr_from_string" else (AdvTr if lean in ADVISORY else TextTr))
             out.append(text)
             status["text:" + key] = "translated"
         except (Unsupported, StopIteration, OSError) as e:
